@@ -709,6 +709,15 @@ func genC14(t *rapid.T) ContractCase {
 		}
 	}
 	c.A, c.B = pc.A, pc.B
+	hostile := false
+	if jdx.IsMerge(c.Opts) && gen.Chance(t, "hostileMember", 50) {
+		hostile = true
+		// a changed member whose JSON text a YAML reader takes differently
+		if bo, ok := val.MustParse(pc.B).(map[string]val.V); ok {
+			bo[gen.Pick(t, "hk", []string{"p", "100%", "a"})] = gen.Pick(t, "hv", hostileMergeValues)
+			c.B = val.JSON(bo)
+		}
+	}
 	if !jdx.IsMerge(c.Opts) {
 		switch gen.Int(t, "format", 0, 5) {
 		case 0:
@@ -719,7 +728,7 @@ func genC14(t *rapid.T) ContractCase {
 			}
 		}
 	}
-	c.Yaml = gen.Chance(t, "yaml", 25)
+	c.Yaml = gen.Chance(t, "yaml", 25) || (hostile && gen.Chance(t, "yamlForHostile", 50))
 	c.Color = c.Mode == "diff" && c.Format != "patch" && !jdx.IsMerge(c.Opts) && gen.Chance(t, "color", 12) && !hasLongString(val.MustParse(c.A), 3000)
 	return c
 }
